@@ -258,7 +258,7 @@ Plan11 generate(uint64_t run_seed, bool thorough, bool huge) {
 		Stream t; t.outlen = 64; t.msglen = ((uint64_t)4 << 30) + (1 << 20) + 13; t.msgseed = r.next(); t.zero = true;
 		p.streams.push_back(t);      // (a) one update call larger than 4 GiB between two small ones
 		p.steps.push_back(Step{S_UPDATE, 0, 3, 0, 0});
-		p.steps.push_back(Step{S_UPDATE, 0, ((uint64_t)4 << 30) + 5, 0, 0});
+		p.steps.push_back(Step{S_UPDATE, 0, ((uint64_t)4 << 30) + 70000 + 5, 0, 0}); // whole blocks alone exceed 2^32 bytes
 		p.steps.push_back(Step{S_UPDATE, 0, t.msglen, 0, 0});
 		p.steps.push_back(Step{S_FINAL, 0, 0, 0, 0});
 		Stream u; u.outlen = 32; u.keylen = 17; u.keyseed = r.next(); u.msglen = ((uint64_t)4 << 30) + 129; u.zero = true;
